@@ -10,6 +10,10 @@ pub mod refs;
 mod c04;
 #[cfg(kani)]
 mod c18;
+#[cfg(kani)]
+mod c01;
+#[cfg(kani)]
+mod c08;
 #[cfg(all(kani, feature = "format"))]
 mod c12;
 #[cfg(all(kani, feature = "power-of-two"))]
